@@ -37,6 +37,8 @@ pub struct GenOpts {
     pub qualified_names: bool,
     /// two-version definitions that are a copy of the first version with ONE mutation (near misses)
     pub near_miss: bool,
+    /// always add a second version of a whole group of definitions (see `near_miss_group_version`)
+    pub force_group_version: bool,
     /// `#[codec(compact)] f: ()` and `Compact<()>` (`()` is HasCompact, its encoding is empty)
     pub compact_unit: bool,
     /// skipped parameters may occur in field types (needs custom bounds in real Rust; behaves
@@ -72,6 +74,7 @@ impl GenOpts {
             qualified_names: true,
             near_miss: true,
             compact_unit: true,
+            force_group_version: false,
             skipped_in_fields: false,
             ord_keys_only: false,
             other_ptrs: true,
@@ -1323,7 +1326,14 @@ pub fn gen_program(t: &mut Tape, o: &GenOpts) -> Generated {
     // metadata): every definition reachable from a chosen one is copied to the same path with the
     // references inside the group redirected to the copies, and ONE copy gets one mutation. The other
     // copies then differ from their originals only through the types they refer to.
-    if o.near_miss && o.two_versions && !roots.is_empty() && g.t.chance(40) {
+    let group_chance = if o.force_group_version {
+        256
+    } else if g.labels.contains("recursion") {
+        110
+    } else {
+        50
+    };
+    if o.near_miss && o.two_versions && !roots.is_empty() && g.t.chance(group_chance) {
         let cands: Vec<usize> = (0..defs.len())
             .filter(|i| !g.headers[*i].is_config && defs[*i].all_fields().iter().any(|f| f.ty.any(&mut |t| matches!(t, Ty::Def(..)))))
             .collect();
